@@ -261,6 +261,13 @@ func c19scenarioChild(raw json.RawMessage, scratch string) {
 				defer wg.Done()
 				node := &slot.SyncNode{Id: g, Source: fmt.Sprintf("10.19.0.%d:6379", g), SourcePassword: a.SrcPw, Target: []string{"10.19.1.1:6379"}, TargetPassword: a.TgtPw,
 					SlotLeftBoundary: g * 2048, SlotRightBoundary: g*2048 + 2047, Slaves: []string{fmt.Sprintf("10.19.2.%d:6379", g)}}
+				// links without AUTH on one side exist too: the other side's password is still a secret
+				switch g % 4 {
+				case 1:
+					node.SourcePassword = ""
+				case 2:
+					node.TargetPassword = ""
+				}
 				for k := 0; k < 2500 && atomic.LoadInt64(&descLeaked) == 0; k++ {
 					var line string
 					switch k % 3 {
